@@ -305,6 +305,38 @@ class Runner:
         elif k == "unreg_task":
             m.unregister(op[1])
             self.named_tasks.pop(op[1], None)
+        elif k == "query":      # ["query", what, path]  read-only API calls (answers are judged elsewhere; here: no side effects)
+            ref = self.mkref(op[2])
+            what = op[1]
+            if what == "find_deps":
+                m.find_deps([ref])
+            elif what == "find_tasks":
+                list(m.find_tasks([ref]))
+                list(m.find_tasks(ref._get_dependencies()))
+            elif what == "find_tasks_all":
+                list(m.find_tasks())
+                list(m.find_taskids())
+            elif what == "find_taskids":
+                list(m.find_taskids([ref]))
+                list(m.find_taskids(ref._get_dependencies()))
+            elif what == "mk_fun":
+                m.mk_fun("q", x=ref)
+            elif what == "dump":
+                m.dump()
+            elif what == "ref_queries":
+                ref._find_dependant_targets(), ref._tasks, ref._expr
+            elif what == "iter_owner":
+                list(m.iter_expr_tasks_owner(self.refs[op[2][0]]))
+            elif what == "text":
+                str(ref), repr(ref), hash(ref), ref._get_dependencies(), ref == self.mkref(op[2])
+            elif what == "value":
+                try:
+                    ref._value
+                    ref._get_value()
+                except Exception:
+                    pass
+            else:
+                raise ValueError("unknown query %r" % (what,))
         elif k == "refresh":
             m.refresh()
         elif k == "cleanup":
